@@ -485,6 +485,71 @@ def render_aho(tables):
         "  [" + ";\n   ".join(rows) + "].", ""])
 
 
+# ---- connective loops of solve_expression -----------------------------------------------------
+R3 = {"True": "T", "False": "F", "Missing": "M"}
+
+
+def extract_loops(src):
+    src = strip_comments(src)
+    out = {}
+    for sym in ("And", "Or"):
+        m = re.search(r"Expression::BooleanGroup\(\s*BoolSym::%s\s*,\s*ref\s+group\s*\)\s*=>\s*\{" % sym, src)
+        if not m or len(re.findall(r"Expression::BooleanGroup\(\s*BoolSym::%s\s*,\s*ref\s+group\s*\)\s*=>" % sym, src)) != 1:
+            fail("group arm for %s not found exactly once" % sym)
+        body, _ = brace_block(src, m.end() - 1)
+        flat = " ".join(body.split())
+        mm = re.match(r"^(?:let mut res = SolverResult::(\w+); )?for expression in group \{ match solve_expression\(expression, identifiers, document\) \{ (.*?) \} \} (SolverResult::(\w+)|res)$", flat)
+        if not mm:
+            fail("%s-group loop: %s" % (sym, flat[:100]))
+        init, arms_txt, fin, fin_r = mm.group(1), mm.group(2), mm.group(3), mm.group(4)
+        acts = {}
+        for am in re.finditer(r"SolverResult::(\w+) => (\{\}|return SolverResult::(\w+)|res = SolverResult::(\w+)),?", arms_txt):
+            k = am.group(1)
+            if k not in R3 or k in acts:
+                fail("%s-group loop arm %s" % (sym, k))
+            if am.group(2) == "{}":
+                acts[k] = "LNext"
+            elif am.group(3):
+                acts[k] = "LReturn %s" % R3[am.group(3)]
+            else:
+                if init is None:
+                    fail("%s-group loop assigns res without declaring it" % sym)
+                acts[k] = "LSet %s" % R3[am.group(4)]
+        rest = re.sub(r"SolverResult::(\w+) => (\{\}|return SolverResult::(\w+)|res = SolverResult::(\w+)),?", "", arms_txt).strip()
+        if set(acts) != set(R3) or rest:
+            fail("%s-group loop does not have exactly the three arms: %s / %r" % (sym, sorted(acts), rest))
+        if fin == "res" and init is None:
+            fail("%s-group loop returns res without declaring it" % sym)
+        out[sym] = {"init": R3.get(init, "M") if init else "M", "T": acts["True"], "F": acts["False"], "M": acts["Missing"],
+                    "fin": "FAcc" if fin == "res" else "FConst %s" % R3[fin_r]}
+    m = re.search(r"Expression::Negate\(\s*ref\s+e\s*\)\s*=>\s*\{", src)
+    if not m or len(re.findall(r"Expression::Negate\(\s*ref\s+e\s*\)\s*=>", src)) != 1:
+        fail("Negate arm not found exactly once")
+    body, _ = brace_block(src, m.end() - 1)
+    flat = " ".join(body.split())
+    mm = re.match(r"^let res = match solve_expression\(e\.as_ref\(\), identifiers, document\) \{ SolverResult::(\w+) => SolverResult::(\w+), SolverResult::(\w+) => SolverResult::(\w+), SolverResult::(\w+) => SolverResult::(\w+),? \}; (?:debug!\(.*?\); )?res$", flat)
+    if not mm:
+        fail("Negate arm: " + flat[:120])
+    g = mm.groups()
+    neg = {g[0]: g[1], g[2]: g[3], g[4]: g[5]}
+    if set(neg) != set(R3) or any(v not in R3 for v in neg.values()):
+        fail("Negate arm does not map the three results")
+    out["Neg"] = {k: R3[v] for k, v in neg.items()}
+    return out
+
+
+def render_loops(t):
+    def loop(name, d):
+        return ("Definition %s : loop_table :=\n  {| l_init := %s; l_T := %s; l_F := %s; l_M := %s; l_fin := %s |}."
+                % (name, d["init"], d["T"], d["F"], d["M"], d["fin"]))
+    return "\n".join([
+        "(* AUTO-GENERATED by tools/gen_tables.py from src/solver.rs (solve_expression: the and-group loop, the"
+        "\n   or-group loop, the Negate arm) -- do not edit. *)",
+        "From TauModel Require Import Base Syntax Value Solver LoopTable.", "",
+        loop("and_group_loop", t["And"]), "", loop("or_group_loop", t["Or"]), "",
+        "Definition negate_table : neg_table := {| n_T := %s; n_F := %s; n_M := %s |}." % (t["Neg"]["True"], t["Neg"]["False"], t["Neg"]["Missing"]), ""])
+
+
 def coq_str(s):
     return "[" + "; ".join(str(ord(ch)) for ch in s) + "]%N"
 
@@ -574,6 +639,18 @@ def main():
         status["solver_aho"] = "ok"
     except Unrecognised as e:
         status["solver_aho"] = "shape not recognised: %s" % e
+    # table 5: the connective loops
+    try:
+        try:
+            ssrc3 = open(os.path.join(REPO, "src", "solver.rs"), encoding="utf-8").read()
+        except OSError as e:
+            fail("cannot read solver.rs: %s" % e)
+        lt = extract_loops(ssrc3)
+        info["loops_changed"] = write_if_changed(os.path.join(os.path.dirname(out), "GeneratedLoops.v"), render_loops(lt))
+        info["loops"] = lt
+        status["solver_loops"] = "ok"
+    except Unrecognised as e:
+        status["solver_loops"] = "shape not recognised: %s" % e
     info["status"] = status
     if "--json" in sys.argv:
         print(json.dumps(info))
